@@ -51,6 +51,24 @@ namespace detail
 
 using any_event = std::any;
 
+// The events named by the end interrupt flags of a state.
+template <typename Flag>
+struct end_interrupt_event_impl
+{
+    using type = mp11::mp_list<>;
+};
+template <typename Event>
+struct end_interrupt_event_impl<EndInterruptFlag<Event>>
+{
+    using type = mp11::mp_list<Event>;
+};
+template <typename Flag>
+using end_interrupt_event = typename end_interrupt_event_impl<Flag>::type;
+template <typename State>
+using end_interrupt_events = mp11::mp_apply<
+    mp11::mp_append,
+    mp11::mp_transform<end_interrupt_event, get_flag_list<State>>>;
+
 template <>
 struct compile_policy_impl<favor_compile_time>
 {
@@ -86,8 +104,16 @@ struct compile_policy_impl<favor_compile_time>
     template<typename StateMachine>
     static bool is_end_interrupt_event(const StateMachine& sm, const any_event& event)
     {
-        using event_set = generate_event_set<
-            typename StateMachine::front_end_t::transition_table>;
+        // The end interrupt events the states declare need not appear
+        // in the state machine's own transition table.
+        using event_set = mp11::mp_set_union<
+            generate_event_set<
+                typename StateMachine::front_end_t::transition_table>,
+            mp11::mp_apply<
+                mp11::mp_append,
+                mp11::mp_transform<
+                    end_interrupt_events,
+                    typename StateMachine::internal::state_set>>>;
         bool result{false};
         mp11::mp_for_each<mp11::mp_transform<mp11::mp_identity, event_set>>(
             [&sm, &event, &result](auto event_identity)
